@@ -168,7 +168,12 @@ unsafe impl Trace for Node {
             self.cells[s].trace(ctx);
             crash_point(CpKind::Trace);
         }
-        // The untraced cell, the weak cell and the cleaner are (deliberately or by definition) not traced
+        // The untraced cell is deliberately not traced. Weak and Cleaner must report nothing: tracing them here
+        // lets every weak / cleaner lens notice an impl that starts reporting a pointer it does not own.
+        #[cfg(feature = "weak")]
+        self.wcell.trace(ctx);
+        #[cfg(feature = "cleaners")]
+        self.cleaner.trace(ctx);
         cb_trace_exit();
     }
 }
